@@ -3,6 +3,8 @@ open IrVerif.Names
 #print axioms C15_fresh
 #print axioms C15_monotone
 #print axioms C15_loop_terminates
+#print axioms C15_carried
+#print axioms C15_graph_fresh
 #print axioms C15_explicit_kept
 #print axioms C15_namefix_total
 #print axioms C15_namefix_post
@@ -12,4 +14,6 @@ open IrVerif.Names
 #print axioms C15_namefix_call_post
 #print axioms C15_namefix_call_keeps_unique
 #print axioms C15_namefix_call_idempotent
+#print axioms C15_scoped_of_well_owned
 #print axioms C15_rename_values_atomic
+#print axioms C15_rename_values_succeeds
